@@ -878,7 +878,7 @@ def run(ctx, res):
     res.rule = RULE
     rng = ctx.subrng("c12")
     thorough = ctx.tier != "quick" or ctx.mode == "search"
-    n_hist = ctx.scale(200, 4000, 1500)
+    n_hist = ctx.scale(200, 2800, 1500)
     n_ctor = ctx.scale(150, 2000, 1000)
     n_set = ctx.scale(200, 2500, 1500)
     tie = Tie(ctx, res)
